@@ -16,6 +16,7 @@ open IQE.Props.C21
 #print axioms C21_global_one_row
 #print axioms C21_global_empty_values
 
+open IQE.Props.C21Gen
 #print axioms C21Gen_dispatch_order
 #print axioms C21Gen_merge_count
 #print axioms C21Gen_merge_sum
